@@ -1204,6 +1204,11 @@ func (pc *PartitionContext) UpdateAllocation(alloc *objects.Allocation) (request
 		return false, false, fmt.Errorf("failed to find application %s", applicationID)
 	}
 	queue := app.GetQueue()
+	// a terminated application loses its queue before it is removed from the partition in the background
+	if queue == nil {
+		metrics.GetSchedulerMetrics().IncSchedulingError()
+		return false, false, fmt.Errorf("application %s is terminated", applicationID)
+	}
 
 	// find node if one is specified
 	allocated := alloc.IsAllocated()
